@@ -459,7 +459,7 @@ func DERLayout(b []byte) []Region {
 	}
 	walk(0, len(b), 1)
 	for _, h := range hds {
-		rs = append(rs, Region{Off: h.start, Len: 24, Name: "der.tlv", Base: h.start, Step32: 1, Step16: 1})
+		rs = append(rs, Region{Off: h.start, Len: 24, Name: "der.tlv"})
 	}
 	// core: tag+length bytes (+2 value bytes) of the shallowest 64 headers
 	ncore := 0
